@@ -50,6 +50,8 @@ Accepted subset (anything else raises TranslateError with file:line):
               local set of strings; pcfg_parser.count_X.clear() / = Counter() / = {}; calls of
               collaborators as statements; if / elif / else (`if x is None`, truth tests of bools, of
               None-or-strings, of what run_trainer returns); `if c: ..; continue` directly in a loop body;
+              a helper `def h(..): return <expression>` (at module level of run_trainer.py or directly in the
+              body of run_trainer; constant defaults, pure arguments) is inlined where it is called;
               for x in obj.read_password(): body (body: no world access, no use of obj); try: .. except
               Exception [as e]: handler (bare except too; the handler must end in return; no else /
               finally); return [True | False | None].
@@ -369,6 +371,8 @@ class FnTr:
         self.sigs = {}
         self.markov = None          # (lo, hi) of the top-level slice translated by translate_writer
         self.loop_object = []       # readers being iterated
+        self.helpers = {}           # name -> def of a helper function whose body is `return <expression>` (inlined)
+        self.inline_depth = 0
 
     # -------------------------------------------------------------- helpers
     def fail(self, node, msg):
@@ -664,8 +668,57 @@ class FnTr:
         if name in self.loop_object:
             self.fail(node, "the reader %s is used inside its own loop" % name)
 
+    def inline(self, e, helper):
+        """a call of a helper whose body is `return <expr>`: the expression with the arguments put in"""
+        import copy
+        a = helper.args
+        names = [x.arg for x in a.args]
+        if a.vararg or a.kwarg or a.kwonlyargs or a.posonlyargs or helper.decorator_list:
+            self.fail(e, "unsupported parameters of the helper %s" % helper.name)
+        given = {}
+        if len(e.args) > len(names):
+            self.fail(e, "too many arguments")
+        for i, x in enumerate(e.args):
+            given[names[i]] = x
+        for kw in e.keywords:
+            if kw.arg not in names or kw.arg in given:
+                self.fail(e, "unexpected keyword argument %r" % kw.arg)
+            given[kw.arg] = kw.value
+        nd = len(a.defaults)
+        for i, d in enumerate(a.defaults):
+            given.setdefault(names[len(names) - nd + i], d)
+        for n in names:
+            if n not in given:
+                self.fail(e, "argument %s is missing" % n)
+            if not self.dead.pure(given[n]):
+                self.fail(e, "an argument of the helper %s is not a pure expression" % helper.name)
+        body = [s for s in helper.body if not (isinstance(s, ast.Expr) and isinstance(s.value, ast.Constant))]
+        if len(body) != 1 or not isinstance(body[0], ast.Return) or body[0].value is None:
+            self.fail(e, "the helper %s is something else than `return <expression>`" % helper.name)
+
+        class Sub(ast.NodeTransformer):
+            def visit_Name(self, node):
+                if node.id in given and isinstance(node.ctx, ast.Load):
+                    return copy.deepcopy(given[node.id])
+                return node
+        expr = Sub().visit(copy.deepcopy(body[0].value))
+        for n in ast.walk(expr):
+            if isinstance(n, (ast.Lambda, ast.ListComp, ast.DictComp, ast.SetComp, ast.GeneratorExp, ast.NamedExpr)):
+                self.fail(e, "unsupported expression in the helper %s" % helper.name)
+        return ast.copy_location(expr, e) if not hasattr(expr, "lineno") else expr
+
     def call(self, e, env, want):
         f = e.func
+        if isinstance(f, ast.Name) and f.id in self.helpers and f.id not in env.types:
+            if self.inline_depth > 4:
+                self.fail(e, "helpers nested too deeply")
+            self.inline_depth += 1
+            try:
+                sub = self.inline(e, self.helpers[f.id])
+                ast.fix_missing_locations(sub)
+                return self.expr(sub, env, want)
+            finally:
+                self.inline_depth -= 1
         if isinstance(f, ast.Name) and f.id in self.table:
             c = self.table[f.id]
             if c.get("world") and (self.pure_depth or not self.world):
@@ -818,6 +871,11 @@ class FnTr:
         def go_on(env2, ind2):
             return self.block(rest, env2, ind2, finish, loop_finish)
 
+        if isinstance(s, ast.FunctionDef):
+            if ind != 1 or s.name in env.types or s.name in self.table or s.name in self.helpers:
+                self.fail(s, "a nested def somewhere else than at the top level of the function, or one that shadows a name")
+            self.helpers[s.name] = s
+            return go_on(env, ind)
         if isinstance(s, ast.Return):
             if self.pure_depth:
                 self.fail(s, "return inside a loop body")
@@ -1140,9 +1198,13 @@ def render_run_trainer(repo):
             or fn.args.kwonlyargs or fn.args.defaults or fn.decorator_list:
         raise TranslateError("%s:%d: the parameters of run_trainer changed" % (path, fn.lineno))
     for n in ast.walk(fn):
-        if isinstance(n, (ast.FunctionDef, ast.ClassDef)) and n is not fn:
+        if isinstance(n, ast.ClassDef) or (isinstance(n, ast.FunctionDef) and n is not fn and n not in fn.body):
             raise TranslateError("%s:%d: nested definition" % (path, n.lineno))
     tr = FnTr(repo, path, rel, fn, COLLAB, True, "obool", "C")
+    tr.helpers = {n: d for n, d in defs.items() if n != "run_trainer"}
+    for n in ast.walk(tree):
+        if isinstance(n, ast.Name) and isinstance(n.ctx, (ast.Store, ast.Del)) and n.id in defs:
+            raise TranslateError("%s:%d: %s is rebound" % (path, n.lineno, n.id))
     env = Env()
     tr.bind_var(fn, "program_info", "pinfo", env)
     tr.bind_var(fn, "base_directory", "path", env)
